@@ -103,6 +103,8 @@ fn comp_json(c: &Value, parent_fold: u64, out: &mut Vec<Value>) {
     if let Some(os) = c.get("outputs").and_then(|e| e.as_object()) {
         for (n, o) in os { outputs.push(json!({"name": n, "vid": o["vertex_id"], "field": o["field_name"], "type": type_from_serde(&o["field_type"])})); }
     }
+    // sorted by name: the order in which construct_outputs / compute_fold resolve them (output_names.sort_unstable())
+    outputs.sort_by(|a, b| a["name"].as_str().unwrap().cmp(b["name"].as_str().unwrap()));
     out.push(json!({"root": c["root"], "parentFold": parent_fold, "vertices": vertices, "items": items, "outputs": outputs}));
 }
 
